@@ -19,6 +19,7 @@ const (
 
 // ShadowPage is the shadow state of one allocation.
 type ShadowPage struct {
+	obj     vsched.Obj // scheduling identity: every primitive on the page is a scheduling point
 	ID      int
 	Buf     []byte
 	Mapped  bool
@@ -100,6 +101,7 @@ func (m *ShadowMemcall) Alloc(size int) ([]byte, error) {
 
 func (m *ShadowMemcall) Lock(b []byte) error {
 	p := m.page(b, "Lock")
+	vsched.Point(&vsched.Op{Kind: "mc.Lock", Obj: &p.obj})
 	if m.fault("Lock") {
 		m.log("Lock", p, true, "")
 		return ErrMemcall
@@ -120,6 +122,7 @@ func nonZero(b []byte) bool {
 
 func (m *ShadowMemcall) Unlock(b []byte) error {
 	p := m.page(b, "Unlock")
+	vsched.Point(&vsched.Op{Kind: "mc.Unlock", Obj: &p.obj})
 	if m.fault("Unlock") {
 		m.log("Unlock", p, true, "")
 		return ErrMemcall
@@ -162,6 +165,7 @@ func containsWindow(hay, secret []byte) bool {
 
 func (m *ShadowMemcall) Free(b []byte) error {
 	p := m.page(b, "Free")
+	vsched.Point(&vsched.Op{Kind: "mc.Free", Obj: &p.obj})
 	if m.fault("Free") {
 		m.log("Free", p, true, "")
 		return ErrMemcall
@@ -191,6 +195,8 @@ func (m *ShadowMemcall) Protect(b []byte, f memcall.MemoryProtectionFlag) error 
 		want = ProtRW
 	}
 	name := []string{"NoAccess", "ReadOnly", "ReadWrite"}[want]
+	// the protection change is visible to every thread touching the page: it must be a scheduling point
+	vsched.Point(&vsched.Op{Kind: "mc.Protect(" + name + ")", Obj: &p.obj})
 	if m.fault("Protect(" + name + ")") {
 		m.log("Protect("+name+")", p, true, "")
 		return ErrMemcall
